@@ -21,7 +21,7 @@ Definition render_block (b : bdesc) : list str :=
 
 Definition graph_of (L : list wedge) : ginfo :=
   let g := add_all L ([], []) in
-  {| g_nodes := fst g; g_edges := snd g; g_n := length (fst g); g_m := length (snd g) |}.
+  {| gi_nodes := fst g; gi_edges := snd g; gi_n := length (fst g); gi_m := length (snd g) |}.
 
 Definition has_src (L : list wedge) : Prop := exists x, endpoint x L /\ forall e, In e L -> snd (fst e) <> x.
 Definition has_snk (L : list wedge) : Prop := exists x, endpoint x L /\ forall e, In e L -> fst (fst e) <> x.
@@ -54,7 +54,7 @@ Definition finish (hdrs : list str) (cstr : list (list (str * str))) (body : lis
              if has_source ns es then
                if has_sink ns es then
                  Ok {| gid := hd_error hdrs; gcons := cstr;
-                       ginf := Some {| g_nodes := ns; g_edges := es; g_n := length ns; g_m := length es |} |}
+                       ginf := Some {| gi_nodes := ns; gi_edges := es; gi_n := length ns; gi_m := length es |} |}
                else no_st ns ENoSink
              else no_st ns ENoSource
            else Error EMissingConstraintEdge
@@ -138,13 +138,13 @@ Qed.
    the weight; n and m are their numbers; without repeated pairs the edge list is the listing itself *)
 Theorem graph_of_spec L :
   let G := graph_of L in
-  NoDup (g_nodes G) /\ (forall x, In x (g_nodes G) <-> endpoint x L) /\
-  NoDup (map fst (g_edges G)) /\ (forall p, In p (map fst (g_edges G)) <-> In p (map fst L)) /\
-  (forall L1 u v w L2, L = L1 ++ (u, v, w) :: L2 -> ~ In (u, v) (map fst L2) -> In (u, v, w) (g_edges G)) /\
-  g_n G = length (g_nodes G) /\ g_m G = length (g_edges G) /\
-  (NoDup (map fst L) -> g_edges G = L).
+  NoDup (gi_nodes G) /\ (forall x, In x (gi_nodes G) <-> endpoint x L) /\
+  NoDup (map fst (gi_edges G)) /\ (forall p, In p (map fst (gi_edges G)) <-> In p (map fst L)) /\
+  (forall L1 u v w L2, L = L1 ++ (u, v, w) :: L2 -> ~ In (u, v) (map fst L2) -> In (u, v, w) (gi_edges G)) /\
+  gi_n G = length (gi_nodes G) /\ gi_m G = length (gi_edges G) /\
+  (NoDup (map fst L) -> gi_edges G = L).
 Proof.
-  unfold graph_of. cbn [g_nodes g_edges g_n g_m]. repeat split.
+  unfold graph_of. cbn [gi_nodes gi_edges gi_n gi_m]. repeat split.
   - apply add_all_nodes_NoDup. constructor.
   - intros H. apply add_all_nodes in H. destruct H as [[]|H]. exact H.
   - intros H. apply add_all_nodes. right. exact H.
